@@ -1,7 +1,7 @@
 (* C12 — the property, clause by clause.  Only statements here; every proof is `exact lemma`.
    All theorems hold for EVERY class path cp (which files exist and what they declare), every
    starting world w and every history h: quantification is unbounded. *)
-From V.C12 Require Import Spec Model Proofs ProofsSound.
+From V.C12 Require Import Spec Model Proofs ProofsSound ShortNames.
 
 (* "Classes, interfaces and functions defined through a temporary VM are visible to code running
    on that VM only: after any sequence of definitions and lookups across a base VM and several
@@ -28,6 +28,19 @@ Theorem temp_add_frame : forall cp w h t k n d v k' n', v <> Temp t ->
   lookup (run cp w (h ++ [OAdd (Temp t) k n d])) v k' n' = lookup (run cp w h) v k' n'.
 Proof. intros cp w h t k n d v k' n' N. apply (frame_l cp w h (OAdd (Temp t) k n d) t); auto. Qed.
 Print Assumptions temp_add_frame.
+
+(* short class names inside a namespace (`namespace NS; new Short()`): which full name a short name stands for on
+   VM v is the same as in the history with everything TempVM t did removed -- a declaration of NS\Short on one
+   request's VM never captures (or un-captures) the short name on another VM ... *)
+Theorem short_names_resolve_in_isolation : forall cp w h t v ns n, v <> Temp t ->
+  resolve_short cp (run cp w h) v ns n = resolve_short cp (run cp w (purge t h)) v ns n.
+Proof. exact resolve_short_isolated_l. Qed.
+Print Assumptions short_names_resolve_in_isolation.
+(* ... and one more operation of TempVM t changes the meaning of a short name on no other VM *)
+Theorem short_names_frame : forall cp w h o t v ns n, op_scope o = Some t -> v <> Temp t ->
+  resolve_short cp (run cp w (h ++ [o])) v ns n = resolve_short cp (run cp w h) v ns n.
+Proof. exact resolve_short_frame_l. Qed.
+Print Assumptions short_names_frame.
 
 (* discarding a TempVM changes what no other VM resolves *)
 Theorem temp_discard_frame : forall cp, discard_frame world (run cp) lookup.
